@@ -418,6 +418,8 @@ def open_variants(ras):
             v.append(('good-addpath-' + ap, ras, ras, 90, ('mp', 'as4', ap), 4, True, 1, 0))
         v.append(('bad-as2', ras + 1 if ras < 65535 else ras - 1, None, 90, ('mp',), 4, True, 2, 2))
         v.append(('bad-as4-disagrees', ras, ras + 1, 90, ('mp', 'as4'), 4, True, 2, 2))
+        v.append(('bad-as4-zero', ras, 0, 90, ('mp', 'as4'), 4, True, 2, 2))          # the capability's value is the AS: 0 is not the remote AS
+        v.append(('bad-as4-max', ras, 4294967295, 90, ('mp', 'as4'), 4, True, 2, 2))
     else:
         v.append(('good-packed', as2, ras, 90, ('mp', 'rr', 'crr', 'err', 'gr', 'as4', 'unk'), 4, False, 1, 0))
         v.append(('bad-astrans-nocap', wire.AS_TRANS, None, 90, ('mp',), 4, True, 2, 2))
@@ -891,6 +893,10 @@ def bodies_for(rule):
                 ('mixed-mp-both', {'attr': dict(base, **{'14': {'afi_safi': [2, 1], 'nexthop': '2001:db8::1', 'nlri': ['2001:db8:1::/48']},
                                                          '15': {'afi_safi': [2, 1], 'withdraw': ['2001:db8:2::/48']}}), 'nlri': ['10.5.0.0/16'], 'withdraw': ['10.9.0.0/16']},
                  dict(u, valid=True, etype='UPDATE', nln=1, wdn=1, ats=[1, 2, 3, 14, 15])),
+                # the same prefix announced and withdrawn in one request: both fields go out as asked
+                ('both-same-prefix', {'attr': dict(base), 'nlri': ['10.9.0.0/16', '10.7.0.0/16'], 'withdraw': ['10.9.0.0/16', '10.8.0.0/16']},
+                 dict(u, valid=True, etype='UPDATE', wdn=2, nln=2, ats=[1, 2, 3])),
+                ('both-all-same', {'attr': dict(base), 'nlri': ['10.7.0.0/16'], 'withdraw': ['10.7.0.0/16']}, dict(u, valid=True, etype='UPDATE', wdn=1, nln=1, ats=[1, 2, 3])),
                 # requests that pass the REST layer's checks but cannot be encoded: refused, and nothing else changes
                 ('bad-asn', {'attr': dict(base, **{'2': [[2, [4294967296]]]}), 'nlri': ['10.5.0.0/16']}, dict(u, etype='UPDATE')),
                 ('bad-nexthop', {'attr': dict(base, **{'3': 'not-an-address'}), 'nlri': ['10.5.0.0/16']}, dict(u, etype='UPDATE')),
